@@ -80,7 +80,7 @@ func build(engine, tmp string) (string, error) {
 	out := filepath.Join(tmp, engine+".test")
 	// both engines are built over the yieldgen overlay: the sched engine drives its scheduling points,
 	// the world engine uses the statement-level ones for pre-emption faults (tag verifpause installs the hook)
-	args := []string{"test", "-c", "-tags", "verif verifpause", "-o", out}
+	args := []string{"test", "-c", "-vet=off", "-tags", "verif verifpause", "-o", out} // (vet cannot chdir into a package that exists only in the overlay)
 	pkg := "./world"
 	if engine == "sched" {
 		pkg = "./sched"
